@@ -719,6 +719,8 @@ Proof.
     { intros tail. unfold fin_events. destruct res; cbn [app].
       - rewrite (drun_two _ _ _ _ (acc_rd_reg _ _ _ _ R1) (acc_wr_map _ _ _ _ R1)).
         apply (drun_one _ _ _ (acc_wr_reg _ _ _ _ R1)).
+      - rewrite (drun_two _ _ _ _ (acc_rd_reg _ _ _ _ R1) (acc_wr_map _ _ _ _ R1)).
+        apply (drun_one _ _ _ (acc_wr_reg _ _ _ _ R1)).
       - apply (drun_one _ _ _ (acc_wr_reg _ _ _ _ R1)).
       - apply (drun_one _ _ _ (acc_wr_reg _ _ _ _ R1)). }
     rewrite Hfin.
@@ -727,7 +729,7 @@ Proof.
     set (ds2 := mkD None (d_written ds1) (d_vis ds1)).
     assert (Hobs : drun ds2 (obs_events k t res sh' (result_cell n (s_sh st) (t_pc th))) = Some ds2).
     { rewrite <- (app_nil_r (obs_events _ _ _ _ _)).
-      unfold obs_events. destruct res as [| |tr]; [reflexivity | reflexivity|].
+      unfold obs_events. destruct res as [| | |tr]; [reflexivity | reflexivity | reflexivity|].
       destruct (result_cell n (s_sh st) (t_pc th)) as [c|]; [|reflexivity].
       destruct Hrc as [E|Bc]; [exfalso; exact (E tr eq_refl)|].
       destruct LO as [(_ & W' & _) | (E & _)]; [|discriminate E].
